@@ -29,13 +29,15 @@ ASSUMPTIONS = [
     "for delimited output the bytes of the line terminator are not asserted (the statement's parenthesis is about "
     "fixed-width); the appended text must parse back to exactly the written row",
     "acceptance is modelled on the values the caller passed (unpadded); per-cell verdicts come from the real field",
+    "a row rejected only because the target file's encoding cannot store it has already been seen by the checks "
+    "(validate first, write second): nothing of it may reach the output, but its key and values count",
 ]
 COMPONENTS = {
     "real": ["cutplace.validio.Writer", "cutplace.rowio.DelimitedRowWriter/FixedRowWriter/delimited_rows/fixed_rows",
              "cutplace.checks", "csv", "io.TextIOWrapper/BufferedWriter/StringIO"],
     "stub": ["SimFS/SimRaw (short writes)", "os.linesep seam", "client"],
 }
-PROBES_REQUIRED = ["write_rows-batch", "rejection-then-acceptance", "duplicate-of-rejected-row", "wrong-item-count", "bad-cell", "duplicate",
+PROBES_REQUIRED = ["unencodable-row", "write_rows-batch", "rejection-then-acceptance", "duplicate-of-rejected-row", "wrong-item-count", "bad-cell", "duplicate",
                    "linesep-crlf-with-any", "delimiter:none", "delimiter:any", "delimiter:crlf", "target:path",
                    "target:stream", "header-row-written", "end-check-fails"]
 EOLS = {"lf": "\n", "cr": "\r", "crlf": "\r\n"}
@@ -63,6 +65,10 @@ def generate(seed, tier):
             "line_delimiter": swarm.choice(["lf", "cr", "crlf", "any"] + (["none"] if fmt == "fixed" else []))}
     pools = {"k": (["a", "b", "c"], ["x", ""]), "n": (["1", "7", "42"], ["z", "100", "-1"]),
              "t": (["x", "yz", "abc"] + (["a,b"] if fmt == "delimited" else []), ["abcd", ""])}
+    spec["encoding"] = swarm.choice(["utf-8", "utf-8", "ascii", "iso-8859-1"])
+    if spec["encoding"] != "utf-8":
+        # characters the target encoding cannot store: such a row passes validation but cannot be written
+        pools["t"][0].extend(["ü", "€"])
     if fmt == "fixed":
         # values may already carry (part of) their padding
         pools["n"][0].append("7 ")
@@ -90,6 +96,14 @@ def generate(seed, tier):
         remaining -= size
     return {"io": config, "cid": spec, "rows": rows, "batches": batches, "target": swarm.choice(["stream", "path"]),
             "close": True}
+
+
+def _encodable(row, encoding):
+    try:
+        "".join(row).encode(encoding)
+        return True
+    except UnicodeEncodeError:
+        return False
 
 
 def _expected_record(spec, row, linesep):
@@ -125,6 +139,7 @@ def execute(scenario):
         if run.writer is None:
             raise core.Violation("writer-construction-failed", features, repr(lib.error_summary(run.init_error)))
         accepted = []
+        unencodable_seen = False
         previous_output = ""
         written_header = 0
         verdicts = []
@@ -141,6 +156,14 @@ def execute(scenario):
                     plan.append((row, "header", None))
                     continue
                 item = tabular.RefReader(dict(spec, header=0), attempted + [row]).items()[-1]
+                if item[0] == "row" and target != "<stream>" and not _encodable(row, spec.get("encoding", "utf-8")):
+                    # conforming, but the file's encoding cannot store it: rejected as a whole, nothing of it is
+                    # emitted.  cutplace validates first and writes second, so the checks have seen the row; the
+                    # statement does not say otherwise, so the model follows that order.
+                    attempted.append(row)
+                    plan.append((row, "err", {"kind": "encode"}))
+                    result.probe("unencodable-row")
+                    break
                 attempted.append(row)
                 plan.append((row, item[0], item[1]))
                 if item[0] == "err":
@@ -165,6 +188,8 @@ def execute(scenario):
             elif not ok:
                 rule = "header-row-rejected" if last_kind == "header" else "conforming-row-rejected"
                 raise core.Violation(rule, features, "rows %r: %r" % (batch, outcome))
+            if last_kind == "err" and last_payload["kind"] == "encode":
+                unencodable_seen = True
             emitted = [row for row, kind, _ in plan if kind != "err"]
             for row, kind, payload in plan:
                 if kind == "header":
@@ -213,7 +238,7 @@ def execute(scenario):
             back_source = io.StringIO(output_text, newline="")
         else:
             data = fs.files.get("out.txt")
-            output_text = bytes(data).decode("utf-8")
+            output_text = bytes(data).decode(spec.get("encoding", "utf-8"))
             back_source = "out.txt"
             if fmt == "fixed":
                 wanted_text = "".join(_expected_record(spec, row, linesep) for row in rows[:written_header] + accepted)
@@ -300,7 +325,7 @@ def candidates(scenario):
         candidate["rows"] = candidate["rows"][1:]
         candidate["batches"] = [1] * len(candidate["rows"])
         yield candidate
-    for key, value in (("sep", ":"), ("line_delimiter", "lf")):
+    for key, value in (("sep", ":"), ("line_delimiter", "lf"), ("encoding", "utf-8")):
         if scenario["cid"].get(key) != value:
             yield lib.with_value(scenario, ["cid", key], value)
     if scenario["io"].get("linesep") != "\n":
